@@ -1,6 +1,7 @@
 package main
 
 import (
+	"bytes"
 	"context"
 	"encoding/json"
 	"fmt"
@@ -243,11 +244,26 @@ var c13Exotics = []c13Exo{
 	// very long strings (the second one is folded by the YAML emitter)
 	c13MkExo("s", c13Q(strings.Repeat("x", 700))),
 	c13MkExo("s", c13Q(strings.TrimSpace(strings.Repeat("lorem ipsum dolor ", 40)))),
+	// values that make ONE PHYSICAL LINE of the patch file longer than the buffers line- / chunk-wise
+	// readers work with (64 KiB: bufio.Scanner's token limit, pipe buffers; 256 KiB): an embedded
+	// dashboard, CA bundle or script in `jq -c` output. No spaces: the YAML emitter cannot fold them.
+	c13MkExo("s", c13Q(strings.Repeat("x", 65536)), "", `"`+strings.Repeat("x", 65536)+`"`),
+	c13MkExo("s", c13Q(strings.Repeat("y", 300000))),
 	// LAST entry, never drawn as a value: null, the "delete this field" of a merge patch, in its YAML spellings
 	c13MkExo("s", "null", "~", "null", "Null", "NULL"),
 }
 
 var c13NullIdx = len(c13Exotics) - 1
+
+// c13LongValue: the value number of the 64 KiB string of the table (for hand-written cases).
+var c13LongValue = func() int {
+	for i, e := range c13Exotics {
+		if s, ok := e.want.(string); ok && len(s) == 65536 {
+			return c13ExoBase + i
+		}
+	}
+	panic("c13 exotic table: no 64 KiB string")
+}()
 
 // c13ExoVal is the value put into the generic document; JSON rendering writes the JSON text.
 type c13ExoVal struct{ idx int }
@@ -472,6 +488,124 @@ func c13RenderYAML(docs []c13Doc, garbled bool, salt int) []byte {
 		sb.WriteString("---\noperation: \"Dele\n")
 	}
 	return []byte(sb.String())
+}
+
+// ---------------------------------------------------------------- physical layout of the file
+//
+// The property speaks about the DOCUMENTS of the stream; how they are laid out in the file - how long
+// a physical line is, how much white space / how many comment lines stand between two documents - is
+// not part of it. c13Layout re-writes a rendered stream without touching a single token: it inserts
+// one long physical line (a run of blanks behind / a blank line before a JSON document; a comment line
+// before a YAML document) whose length sits at a buffer-size boundary (4 KiB page, 64 KiB = bufio.Scanner
+// token limit / pipe buffer, 1 MiB), at a random document boundary. Together with the long VALUES of
+// the table c13Exotics (a long line INSIDE a document) this makes "a reader that works line- or
+// chunk-wise loses / splits something at a threshold" visible wherever the bytes travel through one.
+var c13LineLengths = []int{4095, 4096, 65535, 65536, 65537, 70000, 131072, 1<<20 + 1}
+
+// c13DocStarts: offsets at which a document of the rendered stream starts (JSON: every line; YAML:
+// offset 0 and behind every "---\n" separator at the beginning of a line).
+func c13DocStarts(data []byte, form string) []int {
+	starts := []int{0}
+	for i := 0; i < len(data); i++ {
+		if data[i] != '\n' || i+1 >= len(data) {
+			continue
+		}
+		if form == "json" {
+			starts = append(starts, i+1)
+		} else if bytes.HasPrefix(data[i+1:], []byte("---\n")) {
+			starts = append(starts, i+5)
+		}
+	}
+	return starts
+}
+
+func c13Layout(data []byte, form string, rng *Rng) ([]byte, string) {
+	if len(data) == 0 {
+		return data, "as-rendered"
+	}
+	L := PickOne(rng, c13LineLengths)
+	starts := c13DocStarts(data, form)
+	at := PickOne(rng, starts)
+	var pad []byte
+	how := ""
+	switch {
+	case form == "yaml":
+		pad = append([]byte("# "), bytes.Repeat([]byte("-"), L-2)...)
+		pad = append(pad, '\n')
+		how = "comment-line-behind-the-separator"
+		if at > 0 && rng.Chance(50) {
+			at -= 4 // in front of the "---\n" that starts the document: the last line of the previous one
+			how = "comment-line-in-front-of-the-separator"
+		}
+	case rng.Chance(50):
+		pad = append(bytes.Repeat([]byte(" "), L), '\n')
+		how = "blank-line"
+	default:
+		// trailing blanks behind the document that ends right before `at` (or leading blanks of the first one)
+		pad = bytes.Repeat([]byte(" "), L)
+		if at > 0 {
+			at-- // in front of the "\n" that ends the previous document
+		}
+		how = "blanks-next-to-a-document"
+	}
+	out := make([]byte, 0, len(data)+len(pad))
+	out = append(out, data[:at]...)
+	out = append(out, pad...)
+	out = append(out, data[at:]...)
+	nth := 0
+	for i, s := range starts {
+		if s <= at+4 {
+			nth = i
+		}
+	}
+	return out, fmt.Sprintf("%s:%d-bytes:at-document-%d/%d", how, L, nth+1, len(starts))
+}
+
+// c13LongestLine: length of the longest physical line of the file.
+func c13LongestLine(data []byte) int {
+	best, cur := 0, 0
+	for _, b := range data {
+		if b == '\n' {
+			cur = 0
+			continue
+		}
+		cur++
+		if cur > best {
+			best = cur
+		}
+	}
+	return best
+}
+
+func c13LineClass(n int) string {
+	switch {
+	case n >= 1<<20:
+		return ">=1MiB"
+	case n >= 65536:
+		return ">=64KiB"
+	case n >= 4096:
+		return ">=4KiB"
+	}
+	return "<4KiB"
+}
+
+// c13Show: the file for a note line / a replay file: every run of more than 64 equal bytes is
+// written `<byte>{N}` (the exact bytes derive from (seed, case) anyway).
+func c13Show(data []byte) string {
+	var sb strings.Builder
+	for i := 0; i < len(data); {
+		j := i
+		for j < len(data) && data[j] == data[i] {
+			j++
+		}
+		if j-i > 64 {
+			fmt.Fprintf(&sb, "%c{%d}", data[i], j-i)
+		} else {
+			sb.Write(data[i:j])
+		}
+		i = j
+	}
+	return sb.String()
 }
 
 // ---------------------------------------------------------------- abstraction of what the code built
@@ -1488,10 +1622,11 @@ type c13Exec1 struct {
 	docs    []c13Doc
 	garbled bool
 	writers []c13Writer
+	layout  bool // re-lay the rendered files out with one long physical line (c13Layout)
 }
 
 func c13RunCase(c *Case, rng *Rng, init map[int]c13Obj, initTok string, docs []c13Doc, garbled bool, writers ...c13Writer) {
-	c13RunSeq(c, rng, init, initTok, []c13Exec1{{docs, garbled, writers}})
+	c13RunSeq(c, rng, init, initTok, []c13Exec1{{docs: docs, garbled: garbled, writers: writers}})
 }
 
 // c13RunSeq: successive executions on one cluster and one ObjectPatcher (per rendering). Each
@@ -1517,10 +1652,17 @@ func c13RunSeq(c *Case, rng *Rng, init map[int]c13Obj, initTok string, runs []c1
 			"json": c13RenderJSON(run.docs, run.garbled, rng),
 			"yaml": c13RenderYAML(run.docs, run.garbled, rng.Intn(60)),
 		}
+		if run.layout {
+			for _, form := range []string{"json", "yaml"} {
+				how := ""
+				renderings[form], how = c13Layout(renderings[form], form, rng)
+				c.Op("note "+form+" layout: "+how, "ok")
+			}
+		}
 		sig := map[string]string{}
 		for _, form := range []string{"json", "yaml"} {
 			data := renderings[form]
-			c.Op("note "+form+" rendering: "+string(data), "ok")
+			c.Op("note "+form+" rendering: "+c13Show(data), "ok")
 			pans, ptok, perr := c13Parse(data)
 			c.Op("parse "+form, pans)
 			c.Oracle(fmt.Sprintf("parse form=%s err=%s ops=%s", form, c13B01(perr), ptok))
@@ -1707,7 +1849,12 @@ func c13Random(c *Case, rng *Rng) {
 				writers = g.otherWriters(docs, nil)
 			}
 		}
-		runs = append(runs, c13Exec1{docs, garbled, writers})
+		// 8%: the files of this execution carry one long physical line between / next to two documents
+		layout := rng.Chance(8)
+		if layout {
+			c.Note("layout:long-physical-line-outside-the-documents")
+		}
+		runs = append(runs, c13Exec1{docs, garbled, writers, layout})
 		ndocs += len(docs)
 		nwriters += len(writers)
 		c.Note("stream:" + mode)
@@ -1784,7 +1931,10 @@ func runC13(r *Run) {
 		"409 Conflict; the stream is rendered as JSON and as YAML, both are run through the real " +
 		"ParseOperations + ExecuteOperations on a fresh kube-client/fake cluster and compared with each other and with the model. " +
 		"25% of the values of inline payloads are scalars the two decoders type differently (integers around and above the int64 range, " +
-		"exponents, hex/octal, unquoted timestamps, booleans, strings that look like another type, long strings), written in YAML in one of their spellings. " +
+		"exponents, hex/octal, unquoted timestamps, booleans, strings that look like another type, long strings incl. one of 64 KiB and one of 300 000 bytes " +
+		"= one physical line of the file above 64 KiB), written in YAML in one of their spellings; 8% of the files of the random cases and 25% of the files of " +
+		"the operator-level cases are re-laid out without touching a token: one physical line of 4095 / 4096 / 65535 / 65536 / 65537 / 70000 / 131072 / 1 MiB+1 " +
+		"bytes (blanks behind or in front of a JSON document, a blank line, a YAML comment line behind or in front of a `---`) at a random document boundary. " +
 		"Operator-level cases (64 quick / 700 thorough + 4 corpus): 1-2 executions through the real taskHandler -> handleRunHook -> Hook.Run with a real " +
 		"bash hook that writes such a stream into $KUBERNETES_PATCH_PATH and exits 0 (60%) or non-zero (40%; then 60% of the patches are /status patches " +
 		"with ignoreHookError), the two executions (70%: the same hook in two queues) overlapping in a random interleaving of launch / write / exit " +
